@@ -153,8 +153,11 @@ EvSelect(e) ==
            \cup QFail("dpv_expected", (e.spec_ok /\ Len(rc.dpv) = Len(rc.cols)) => DpvExpected(m, Mk(e.recipe), rc.cols, rc.dpv))
            \cup QFail("objective_count", Len(rc.objectives) = Len(e.prios) /\ \A k \in DOMAIN rc.objectives : Len(rc.objectives[k]) = Len(rc.cols))
            \cup (IF Len(rc.objectives) # Len(e.prios) \/ \E k \in DOMAIN rc.objectives : Len(rc.objectives[k]) # Len(rc.cols) THEN {} ELSE
-                 QFail("ranks", e.enum => \A k \in DOMAIN e.prios :
+                 \* the ranking statement is about boolean items; with integer items only the level structure of the weights is judged
+                 QFail("ranks", (e.enum /\ \A j \in DOMAIN rc.cols : rc.cols[j].lo = 0 /\ rc.cols[j].hi = 1) => \A k \in DOMAIN e.prios :
                             RanksOn(LevelMatrix(rc.cols, rc.dpv, PairsFn(e.prios[k])), rc.objectives[k], PolyPts(rc)))
+                 \cup QFail("objective_levels", Len(rc.dpv) = Len(rc.cols) => \A k \in DOMAIN e.prios :
+                            ShadowOK(LevelMatrix(rc.cols, rc.dpv, PairsFn(e.prios[k])), rc.objectives[k]))
                  \cup QFail("cols_cover_leaves", lids \subseteq ColIds(rc.cols))
                  \cup QFail("opt_same", (lids \subseteq ColIds(rc.cols) /\ e.enum /\ e.spec_ok) => \A k \in DOMAIN e.prios :
                             LeafParts(rc, ArgMax(rc.objectives[k], PolyPts(rc)), lids)
